@@ -91,3 +91,67 @@ Theorem array_insertion_order : forall (d : list (string * val)) k v,
   (amem k d = false -> map fst (aset k v d) = map fst d +++ [k]).
 Proof. exact array_order. Qed.
 Print Assumptions array_insertion_order.
+
+(** * map and fold are the sequence operations (proofs/MapFold.v)
+    For any sub-evaluator: if applying the operator / function to an element (of a class Q of elements) yields
+    the value [g el] and changes the state by [h el], then (map f l) is [List.map g] of the elements, in order, each
+    element used once, and the state effects are composed left to right; (fold f a l) is [fold_left g] from the
+    evaluated a, the accumulator staying in a class P. *)
+From WalModel.proofs Require Import MapFold.
+
+Theorem map_with_an_operator : forall (ev : val -> M val) (Q : val -> Prop) o l w items (g : val -> val) (h : val -> state -> state) st st1,
+  ev l st = Ok (VList w items) st1 -> Forall Q items ->
+  (forall el s, Q el -> ev (WL [VOp o; quoted el]) s = Ok (g el) (h el s)) ->
+  op_map ev [VOp o; l] st = Ok (PL (map g items)) (fold_left (fun s el => h el s) items st1).
+Proof. exact map_operator. Qed.
+Print Assumptions map_with_an_operator.
+
+Theorem map_with_a_function : forall (ev : val -> M val) (Q : val -> Prop) f l w items cenv ps body nm (g : val -> val) (h : val -> state -> state) st st1 st2,
+  (forall o, f <> VOp o) ->
+  ev l st = Ok (VList w items) st1 -> Forall Q items ->
+  ev f st1 = Ok (VClos cenv ps body nm) st2 ->
+  (forall el s, Q el -> eval_closure ev (VClos cenv ps body nm) [quoted_pl el] s = Ok (g el) (h el s)) ->
+  op_map ev [f; l] st = Ok (PL (map g items)) (fold_left (fun s el => h el s) items st2).
+Proof. exact map_function. Qed.
+Print Assumptions map_with_a_function.
+
+Theorem fold_with_an_operator : forall (ev : val -> M val) (P Q : val -> Prop) o a l acc0 w items g h st st1 st2,
+  ev a st = Ok acc0 st1 -> P acc0 ->
+  ev l st1 = Ok (VList w items) st2 -> Forall Q items ->
+  (forall acc el, P acc -> Q el -> P (g acc el)) ->
+  (forall acc el s, P acc -> Q el -> ev (WL [VOp o; quoted acc; quoted el]) s = Ok (g acc el) (h acc el s)) ->
+  exists st3, op_fold ev [VOp o; a; l] st = Ok (fold_left g items acc0) st3 /\ st3 = snd (fold_state h g items acc0 st2).
+Proof. exact fold_operator. Qed.
+Print Assumptions fold_with_an_operator.
+
+Theorem fold_with_a_function : forall (ev : val -> M val) (P Q : val -> Prop) f a l acc0 w items cenv ps body nm g h st st1 st2 st3,
+  (forall o, f <> VOp o) ->
+  ev a st = Ok acc0 st1 -> P acc0 ->
+  ev l st1 = Ok (VList w items) st2 -> Forall Q items ->
+  ev f st2 = Ok (VClos cenv ps body nm) st3 ->
+  (forall acc el, P acc -> Q el -> P (g acc el)) ->
+  (forall acc el s, P acc -> Q el -> eval_closure ev (VClos cenv ps body nm) [quoted acc; quoted el] s = Ok (g acc el) (h acc el s)) ->
+  exists st4, op_fold ev [f; a; l] st = Ok (fold_left g items acc0) st4 /\ st4 = snd (fold_state h g items acc0 st3).
+Proof. exact fold_function. Qed.
+Print Assumptions fold_with_a_function.
+
+(** the threaded state: effects in element order *)
+Theorem fold_state_is : forall h g items acc s,
+  fold_state h g items acc s = fold_left (fun p el => (g (fst p) el, h (fst p) el (snd p))) items (acc, s).
+Proof. reflexivity. Qed.
+Print Assumptions fold_state_is.
+
+(** with the real evaluator: folding + and * over integers *)
+Theorem fold_plus_sums : forall lf f a l a0 w zs st st1 st2,
+  eval lf (S (S (S f))) a st = Ok (VInt a0) st1 ->
+  eval lf (S (S (S f))) l st1 = Ok (VList w (map VInt zs)) st2 ->
+  op_fold (eval lf (S (S (S f)))) [VOp OAdd; a; l] st = Ok (VInt (fold_left Z.add zs a0)) st2.
+Proof. exact fold_plus_is_the_sum. Qed.
+Print Assumptions fold_plus_sums.
+
+Theorem fold_times_multiplies : forall lf f a l a0 w zs st st1 st2,
+  eval lf (S (S (S f))) a st = Ok (VInt a0) st1 ->
+  eval lf (S (S (S f))) l st1 = Ok (VList w (map VInt zs)) st2 ->
+  op_fold (eval lf (S (S (S f)))) [VOp OMul; a; l] st = Ok (VInt (fold_left Z.mul zs a0)) st2.
+Proof. exact fold_times_is_the_product. Qed.
+Print Assumptions fold_times_multiplies.
